@@ -2,6 +2,7 @@ import SageoptModel.Drv.Util
 import SageoptModel.Drv.Solvers
 import SageoptModel.Drv.Compile
 import SageoptModel.Model.Sage
+import SageoptModel.Model.SageKernel
 open Lean Sageopt Sageopt.Drv Sageopt.Compile Sageopt.Sage
 
 namespace Sageopt.Drv.Sage
@@ -79,7 +80,8 @@ def primalH : Handler := fun j => do
     | some x => do pure (some (← asDom x))
     | none => pure none
   let signs := some (c.map classify)
-  let e ← getEch j alpha signs X.isSome s
+  let e0 ← getEch j alpha signs X.isSome s
+  let e := kernelPrune (← getNat j "n") alpha X.isSome s e0
   let ids ← asList (← getField j "ids") asPIds
   let inp : PrimalIn := { n := ← getNat j "n", alpha := alpha, c := c, X := X, settings := s, ech := e, ids := ids,
                           dummy := ← getNat j "dummy" }
